@@ -295,6 +295,17 @@ func (r *rig) doFop(f jFop, rec *[]string) string {
 	case "save":
 		obj := toObj(*f.C)
 		return guarded(func() error { return r.store.Save(obj.Spec.UpstreamCluster, obj) })
+	case "rmw":
+		// read-modify-write through the store, as the limiter does with the upstream state condition:
+		// Get hands out the stored object itself, it is changed in place and that same object is saved
+		obj, err := r.store.Get(f.C.Up.S(), f.C.Name.S())
+		if err != nil {
+			obj = toObj(*f.C)
+		} else {
+			obj.Spec.LimitItemConfigurations[0].MaxRequestsInflight.Max = f.C.Sv
+			obj.Status.LimitItemStatuses[0].RequestLevel = f.C.Tv
+		}
+		return guarded(func() error { return r.store.Save(obj.Spec.UpstreamCluster, obj) })
 	case "delete":
 		r.delRec = nil
 		return guarded(func() error { return r.store.Delete(f.Cl.S(), f.Name.S()) })
@@ -431,7 +442,7 @@ func runC19(raw json.RawMessage) interface{} {
 			r.store = k8sstore.VerifNewStore(client, period, op.Shard, c.N)
 		case r.store == nil:
 			st.Res = "dead"
-		case op.Op == "save" || op.Op == "delete" || op.Op == "delup":
+		case op.Op == "save" || op.Op == "rmw" || op.Op == "delete" || op.Op == "delup":
 			rec := []string{}
 			st.Res = r.doFop(jFop{Op: op.Op, C: op.C, Cl: op.Cl, Name: op.Name}, &rec)
 			for _, x := range rec {
